@@ -183,3 +183,30 @@ M("C08", "export-without-prefix", SYM, 'scope.parent.symbols |= {f"{scope.name}.
 M("C08", "internal-scope-parent-root", SYM, "scope = InternalScope(self, self.current_scope)", "scope = InternalScope(self, self.scopes[0])", "C08.R2")
 M("C08", "label-node-switches-scope", NODES, "        self.resolver.current_scope.add_label(self.symbol_name, current_pc)\n        return current_pc", "        self.resolver.current_scope = self.resolver.scopes[0]\n        self.resolver.current_scope.add_label(self.symbol_name, current_pc)\n        return current_pc", "C08.R5")
 M("C08", "get-table-ignores-parent", SYM, "            if self.parent:\n                return self.parent.get_table()\n            else:\n                return None", "            return None", "C08.R3")
+
+# ------------------------------------------------------------------ C09
+M("C09", "revert-eager-eval-in-callee", CG, "    resolver.append_scope()\n    resolver.use_next_scope()\n    code.append(ScopeNode(resolver))\n    for index, arg in enumerate(macro_args):\n        evaluated = evaluated_args[index]\n        if evaluated is not None:",
+  "    resolver.append_scope()\n    resolver.use_next_scope()\n    code.append(ScopeNode(resolver))\n    for index, arg in enumerate(macro_args):\n        evaluated = evaluated_args[index]\n        if evaluated is None and not isinstance(macro_args_values[index], BlockAstNode):\n            try:\n                evaluated = eval_expression(macro_args_values[index], resolver)\n            except SymbolNotDefined:\n                pass\n        if evaluated is not None:", "C09.R1")
+M("C09", "deferred-in-callee-scope", CG, "code.append(SymbolNode(arg, macro_args_values[index], resolver, in_parent_scope=True))", "code.append(SymbolNode(arg, macro_args_values[index], resolver))", "C09.R1")
+M("C09", "symbolnode-ignores-flag", NODES, "        if self.in_parent_scope and scope.parent is not None:\n            self.resolver.current_scope = scope.parent\n", "", "C09.R1")
+M("C09", "all-params-get-first-arg", CG, "        evaluated = evaluated_args[index]\n", "        evaluated = evaluated_args[0]\n", "C09.R2")
+M("C09", "undefined-macro-is-empty", CG, "    macro_def: MacroAstNode = macro_definitions[node.name]\n", "    macro_def: MacroAstNode = macro_definitions.get(node.name) or MacroAstNode(node.name, [], BlockAstNode([], file_info), file_info)\n", "C09.R2")
+M("C09", "missing-arg-swallowed", CG, "        except SymbolNotDefined:\n            evaluated_args.append(None)", "        except (SymbolNotDefined, IndexError):\n            evaluated_args.append(None)", "C09.R")
+M("C09", "defer-drops-argument", CG, "        except SymbolNotDefined:\n            evaluated_args.append(None)", "        except SymbolNotDefined:\n            pass", "C09.R")
+M("C09", "reuses-enclosing-scope", CG, "            evaluated_args.append(None)\n    resolver.append_scope()\n    resolver.use_next_scope()\n    code.append(ScopeNode(resolver))\n", "            evaluated_args.append(None)\n", "C09.R3",
+  edits=[(CG, "            evaluated_args.append(None)\n    resolver.append_scope()\n    resolver.use_next_scope()\n    code.append(ScopeNode(resolver))\n", "            evaluated_args.append(None)\n"),
+         (CG, "    code += _code_gen(macro_code.body, resolver, macro_definitions)\n    code.append(PopScopeNode(resolver))\n    resolver.restore_scope()\n    return code", "    code += _code_gen(macro_code.body, resolver, macro_definitions)\n    return code")])
+M("C09", "code-lookup-root-scope", CG, "    value = resolver.current_scope.value_for(node.symbol)\n\n    if isinstance(value, BlockAstNode):", "    value = resolver.scopes[0].value_for(node.symbol)\n\n    if isinstance(value, BlockAstNode):", "C09.R3")
+
+# ------------------------------------------------------------------ C10
+M("C10", "for-inclusive", CG, "for k in range(from_val, to_val):", "for k in range(from_val, to_val + 1):", "C10.R2")
+M("C10", "for-bounds-swapped", CG, "    from_val = eval_expression(node.min_value, resolver)\n    to_val = eval_expression(node.max_value, resolver)", "    from_val = eval_expression(node.max_value, resolver)\n    to_val = eval_expression(node.min_value, resolver)", "C10.R2")
+M("C10", "for-reversed", CG, "for k in range(from_val, to_val):", "for k in reversed(range(from_val, to_val)):", "C10.R2")
+M("C10", "for-binds-k-plus-1", CG, "ExpressionAstNode([Term(Token(TokenType.NUMBER, str(k)))])", "ExpressionAstNode([Term(Token(TokenType.NUMBER, str(k + 1)))])", "C10.R2")
+M("C10", "else-expands-then", CG, "        code += _code_gen(if_branch_false.body, resolver, macro_definitions)", "        code += _code_gen(if_branch_true.body, resolver, macro_definitions)", "C10.R1")
+M("C10", "if-catches-everything", CG, "    except (KeyError, SymbolNotDefined):\n        condition = False", "    except Exception:\n        condition = False", "C10.R1")
+M("C10", "if-negated", CG, "    if condition:\n        code += _code_gen(if_branch_true.body", "    if not condition:\n        code += _code_gen(if_branch_true.body", "C10.R1")
+M("C10", "if-positive-only", CG, "    if condition:\n        code += _code_gen(if_branch_true.body", "    if condition > 0:\n        code += _code_gen(if_branch_true.body", "C10.R1")
+M("C10", "parse-for-swaps", PST, "    return ForAstNode(variable.value, start, end, block, current)", "    return ForAstNode(variable.value, end, start, block, current)", "C10.R3")
+M("C10", "ifast-swaps-blocks", ASTN, "        self.block = block\n        self.else_block = else_bock", "        self.block = else_bock or block\n        self.else_block = block if else_bock else None", "C10.R3")
+M("C10", "undefined-true", CG, "    except (KeyError, SymbolNotDefined):\n        condition = False", "    except (KeyError, SymbolNotDefined):\n        condition = True", "C10.R1")
